@@ -49,7 +49,7 @@ ASSUMPTIONS = [
 ]
 BOUND = {
     'quick': '2 grids (101 uniform, 200 mildly non-uniform); 1..3 peaks {gaussian, lorentzian} x width {0.5, 2, 6 steps} x {linear, quadratic}; '
-    '12 scalar window widths 0..3x range; window menus 7^2 and 4^3; 13 model specifications; 27 requirement sets',
+    '12 scalar window widths 0..3x range; window menus 7^2 and 4^3; 8 background x 8 peak specifications; 27 requirement sets',
     'thorough': 'same plus pseudo-Voigt data, 2 noise offsets, 4 and 6 peaks, window menu 7^3, guess fractions {0.1, 0.25, 0.5, 0.9}',
 }
 REQUIRED_CLASSES = [
@@ -58,7 +58,8 @@ REQUIRED_CLASSES = [
     'stats_recomputed', 'requirements_checked', 'auto_windows_ok', 'auto_window_clipped', 'auto_window_separated',
     'independent_of_other_peaks', 'list_first_success', 'list_none_successful', 'spec_instance', 'spec_list',
     'removal_checked', 'removal_with_overlap', 'removal_variances_refused', 'removal_ignores_failures',
-    'estimate_outside_data', 'window_with_fewer_points_than_parameters', 'window_empty',
+    'estimate_outside_data', 'window_with_fewer_points_than_parameters', 'input_window_empty', 'input_window_too_few_points',
+    'input_window_enough_points',
 ]
 CHUNK = 6
 
@@ -199,7 +200,7 @@ def cases(tier):
         for bs, pk in itertools.product(bg_specs, pk_specs):
             if not th and not (isinstance(bs, list) or isinstance(pk, list) or bs.startswith('inst') or pk.startswith('inst')) and (bs, pk) != ('linear', 'pseudo_voigt'):
                 continue  # plain name x name is what 'single' already runs
-            out.append({'kind': 'modelspec', 'spectrum': spec, 'background': bs, 'peak': pk, 'widths': [5.0, 20.0, 40.0] if th else [6.0, 30.0]})
+            out.append({'kind': 'modelspec', 'spectrum': spec, 'background': bs, 'peak': pk, 'widths': [6.0, 20.0, 40.0] if th else [12.0, 30.0]})
     # multi_auto ------------------------------------------------------------------------
     layouts = [(0.3, 0.7), (0.45, 0.55), (0.2, 0.5, 0.6), (0.3, 0.38, 0.8)]
     if th:
@@ -280,7 +281,7 @@ def judge_result(rec, res, x, y, var, *, kmin, reqs, sub):
     n = int(mask.sum())
     k = len(names)
     if n == 0:
-        rec.cls('window_empty')
+        rec.cls('result_for_empty_window')
     if n < kmin:
         rec.cls('window_with_fewer_points_than_parameters')
         rec.validated += 1
@@ -338,6 +339,7 @@ def run_fit(rec, data, x, estimates, windows, bg_spec, pk_spec, fp, fr, *, sub, 
         info = {'exception': type(e).__name__, 'message': str(e)[:120], 'n_points': npts, 'k_min': kmin, 'guess_fraction': frac, 'n_estimates': len(estimates)}
         if npts is not None:
             info['min_guess_tail'] = min(int(n * frac / 2) for n in npts)
+            _count_inputs(rec, x, wins, kmin)
         if npts is not None and any(n < kmin for n in npts):
             rec.viol(SITE_FIT, 'raises_for_too_few_points', f'{type(e).__name__}: {e} (windows hold {npts} points, {kmin} parameters): expected a window_too_narrow result', **info, **sub)
         else:
@@ -346,7 +348,14 @@ def run_fit(rec, data, x, estimates, windows, bg_spec, pk_spec, fp, fr, *, sub, 
     if not isinstance(res, list) or len(res) != len(estimates):
         rec.viol(SITE_FIT, 'result_count', f'{len(res) if isinstance(res, list) else type(res).__name__} results for {len(estimates)} estimates', **sub)
         return None
+    _count_inputs(rec, x, explicit if explicit is not None else [tuple(float(v) for v in r.window.values) for r in res if isinstance(r, FitResult)], k_min(bg_spec, pk_spec))
     return res
+
+
+def _count_inputs(rec, x, wins, kmin):
+    """Outcome-independent bookkeeping of what kind of windows the scenario contained."""
+    for n in points_in(x, wins):
+        rec.cls('input_window_empty' if n == 0 else 'input_window_too_few_points' if n < kmin else 'input_window_enough_points')
 
 
 def observe_auto_windows(data, est, width, fp):
@@ -477,13 +486,16 @@ def run_modelspec(case, rec):
             continue
         rec.validated += 1
         first = next((s for s in singles if s.assessment == FitAssessment.success), None)
-        want = first if first is not None else singles[0]
         if len(cs) > 1:
             rec.cls('list_first_success' if first is not None else 'list_none_successful')
-        if fingerprint(res[0]) != fingerprint(want):
-            got = (type(res[0].peak).__name__, getattr(res[0].background, 'degree', None), res[0].assessment.name)
-            exp = (type(want.peak).__name__, want.background.degree, want.assessment.name)
-            rec.viol(SITE_FIT, 'model_selection', f'specification {bs} x {pk}: returned {got}, the documented order (peaks outer, backgrounds inner, first success, else first) selects {exp}', **sub)
+        got = (type(res[0].peak).__name__, getattr(res[0].background, 'degree', None), res[0].assessment.name)
+        if first is not None:
+            if fingerprint(res[0]) != fingerprint(first):
+                exp = (type(first.peak).__name__, first.background.degree, first.assessment.name)
+                rec.viol(SITE_FIT, 'model_selection', f'specification {bs} x {pk}: returned {got}, the documented order (peaks outer, backgrounds inner, first success) selects {exp}', **sub)
+        elif fingerprint(res[0]) not in {fingerprint(s) for s in singles}:
+            # which of the failed attempts is handed back is not documented: any of them is accepted
+            rec.viol(SITE_FIT, 'model_selection', f'specification {bs} x {pk}: returned {got}, which is the result of none of the single-combination runs', **sub)
     if judged:
         rec.nontrivial += 1
 
